@@ -68,6 +68,19 @@ func checkMapContract(n datamodel.Node, neverKeys []string) (pairs int, err erro
 	if int64(pairs) != n.Length() {
 		return pairs, fmt.Errorf("iteration yielded %d pairs, Length() = %d", pairs, n.Length())
 	}
+	// count-driven: Next() called Length() times without asking Done() in between yields pairs every time and is then done
+	{
+		cit := n.MapIterator()
+		for i := 0; i < pairs; i++ {
+			k, v, err := cit.Next()
+			if err != nil || k == nil || v == nil {
+				return pairs, fmt.Errorf("count-driven iteration (no Done() polling): Next #%d of %d returned (%v, %v, %v)", i+1, pairs, k, v, err)
+			}
+		}
+		if !cit.Done() {
+			return pairs, fmt.Errorf("count-driven iteration: not Done after Length() = %d calls of Next", pairs)
+		}
+	}
 	if !it.Done() {
 		return pairs, fmt.Errorf("iterator not Done after Length() pairs")
 	}
